@@ -57,6 +57,29 @@ theorem available_has_capacity (cfg : Cfg) (ok : CfgOk cfg) (kinds : List Kind) 
   simp only [inProgress, qOf, core, Bool.false_eq_true, ↓reduceIte] at *
   omega
 
+/-- **Connections beyond the limit stay in the listener backlog.**  In any reachable state of a
+fault-free history in which every worker is saturated, no availability bit is set, and `accept` on
+any listener returns at once: it takes nothing from the backlog and dispatches nothing (whatever
+its fuel, whatever the schedule). -/
+theorem beyond_limit_stays_in_backlog (cfg : Cfg) (ok : CfgOk cfg) (kinds : List Kind) (ops : List Op)
+    (hf : ∀ op ∈ ops, op.faultFree)
+    (hsat : ∀ w, w < cfg.nIdx → inProgress (run cfg (init cfg kinds) ops) w = cfg.limit) (fuel l : Nat) :
+    anyAvail cfg (run cfg (init cfg kinds) ops) = false ∧
+    accept cfg (fuel + 1) (run cfg (init cfg kinds) ops) l = run cfg (init cfg kinds) ops := by
+  have hany : anyAvail cfg (run cfg (init cfg kinds) ops) = false := by
+    cases h : anyAvail cfg (run cfg (init cfg kinds) ops) with
+    | false => rfl
+    | true =>
+      unfold anyAvail at h
+      obtain ⟨w, hw, hav⟩ := List.any_eq_true.mp h
+      have hw' : w < cfg.nIdx := List.mem_range.mp hw
+      have := available_has_capacity cfg ok kinds ops hf w hw' hav
+      have := hsat w hw'
+      omega
+  refine ⟨hany, ?_⟩
+  simp only [accept, hany]
+  split <;> rfl
+
 /-! ### Non-vacuity: a concrete history through window W1 satisfies the hypotheses -/
 
 def demoCfg : Cfg := { limit := 1, nIdx := 2 }
@@ -72,5 +95,14 @@ example : ∀ op ∈ demoOps, op.faultFree := by
   rcases hop with rfl | rfl | rfl | rfl | rfl | rfl <;> simp [Op.faultFree, EnvAct.isDie, NoDie]
 -- three connections, limit 1, two workers: all three are dispatched (one through window W1)
 example : (run demoCfg (init demoCfg [.tcp]) demoOps).dispatched.length = 3 := by decide
+-- both workers saturated (limit 1), a third connection waits: the hypotheses of `beyond_limit_stays_in_backlog` hold
+def satOps : List Op :=
+  [.env (.connect 0), .env (.connect 0), .env (.connect 0), .poll [.listener 0, .waker] []]
+example : (∀ w, w < demoCfg.nIdx → inProgress (run demoCfg (init demoCfg [.tcp]) satOps) w = demoCfg.limit) ∧
+    ((run demoCfg (init demoCfg [.tcp]) satOps).lst 0).backlog = [(2, 0)] := by
+  refine ⟨?_, by decide⟩
+  intro w hw
+  have : w = 0 ∨ w = 1 := by simp [demoCfg] at hw; omega
+  rcases this with rfl | rfl <;> decide
 
 end ActixNet.C02
